@@ -141,7 +141,10 @@ pub fn record(args: &[String]) {
         let (tz, loc) = if *j < 2 { ("UTC", "C") } else { (TZS[rng.gen_range(0..TZS.len())], LOCALES[rng.gen_range(0..LOCALES.len())]) };
         let mut env: Vec<(String, String)> = vec![("TZ".into(), tz.into()), ("LANG".into(), loc.into()), ("LC_ALL".into(), loc.into())];
         if *j >= 2 && rng.gen_bool(0.5) {
-            for (k, val) in [("RUST_BACKTRACE", "1"), ("NO_COLOR", "1"), ("HOME", "/nonexistent"), ("PAGER", "cat"), ("COLUMNS", "20"), ("ZERV_SOMETHING", "x"), ("SOURCE_DATE_EPOCH", "1")] {
+            for (k, val) in [("RUST_BACKTRACE", "1"), ("NO_COLOR", "1"), ("HOME", "/nonexistent"), ("PAGER", "cat"), ("COLUMNS", "20"), ("ZERV_SOMETHING", "x"), ("SOURCE_DATE_EPOCH", "1"),
+                           // logging goes to stderr: turning it up, down or off must not change stdout
+                           ("RUST_LOG", ["trace", "zerv=debug", "off", "garbage=,,"][rng.gen_range(0..4)]), ("ZERV_FORCE_RUST_LOG_OFF", "1"),
+                           ("ZERV_TEST_NATIVE_GIT", "1"), ("ZERV_TEST_DOCKER", "0"), ("GIT_PAGER", "cat"), ("LESS", "-R"), ("TERM", "dumb"), ("CLICOLOR_FORCE", "1")] {
                 if rng.gen_bool(0.4) {
                     env.push((k.into(), val.into()));
                 }
@@ -151,7 +154,8 @@ pub fn record(args: &[String]) {
             Some(parent) => Some(parent.into()),
             None => match rng.gen_range(0..3) { 0 => None, 1 => Some(other.clone()), _ => Some("/".into()) },
         };
-        let r = run_bin(&inp.args, inp.stdin.as_deref(), &env, &["RUST_LOG"], cwd.as_deref());
+        let has_log = env.iter().any(|(k, _)| k == "RUST_LOG");
+        let r = run_bin(&inp.args, inp.stdin.as_deref(), &env, if has_log { &[] } else { &["RUST_LOG"] }, cwd.as_deref());
         let out = String::from_utf8_lossy(&r.stdout).to_string();
         let masked = if inp.nomask { out.clone() } else { mask_now_text(&out) };
         json!({"k": "run", "input": i + 1, "argv": inp.args, "tz": tz, "locale": loc, "cwd": cwd.map(|c| c.display().to_string()).unwrap_or_default(),
